@@ -35,7 +35,7 @@ def strategy_(draw, tier):
     mdl = draw(gen.any_model_st(max_modes=mm, beta_lo=0.1, beta_hi=100.0))
     N = M.n_modes(mdl["sites"])
     ix = st.integers(0, N - 1)
-    comps = draw(st.lists(st.tuples(ix, ix, ix, ix), min_size=1, max_size=2, unique=True))
+    comps = draw(st.lists(gen.chi_quad_st(N), min_size=1, max_size=2, unique=True))
     triples = draw(st.lists(gen.triple_st(-6, 6), min_size=1, max_size=4, unique_by=tuple))
     cz = draw(st.lists(st.tuples(*[st.tuples(st.floats(-3, 3), st.floats(0.2, 4)) for _ in range(3)]), min_size=0, max_size=2))
     empty_table = draw(st.booleans())
